@@ -83,6 +83,22 @@ class RecCache(PickleCache):
         _verif.emit('save_end', t=task.tid)
 
 
+class RecJsonCache(RecCache):
+    """A second cache format: own key prefix, JSON result file (values of universe tasks are JSON-able)."""
+    KEY_PREFIX = 'jsonu__'
+    RESULT_FILENAME = 'data.json'
+
+    def save_result(self, storage, task, result):
+        import json
+        with storage.file_handle(task.cache_key, self.RESULT_FILENAME, mode='w') as f:
+            json.dump(result, f)
+
+    def load_result(self, storage, task):
+        import json
+        with storage.file_handle(task.cache_key, self.RESULT_FILENAME, mode='r') as f:
+            return json.load(f)
+
+
 def _gate(task):
     """R3: block inside run() until the controller releases this task."""
     gate_dir = os.environ.get('LV_GATE_DIR')
@@ -202,12 +218,12 @@ def _make(y, mp, c):
     if flt is not None:
         ns['filter_context'] = flt
     cls = type(name, (), ns)
-    cls = labtech.task(cache=(RecCache() if c else None), max_parallel=mp)(cls)
+    cls = labtech.task(cache=({1: RecCache, 2: RecJsonCache}[c]() if c else None), max_parallel=mp)(cls)
     globals()[name] = cls
     TYPES[(y, mp, c)] = cls
 
 
 for _y in (1, 2, 3):
     for _mp in (1, 2, 3, None):
-        for _c in (0, 1):
+        for _c in (0, 1, 2):
             _make(_y, _mp, _c)
